@@ -136,12 +136,11 @@ def SharedIn (pool : List (Nat × List (Nat × Nat))) (sh : Shared) : Prop :=
 /-- every instance an archetype descriptor names is pooled under its type -/
 def SharedPooled (w : WM) : Prop := ∀ a ∈ w.archs, SharedIn w.pool a.shared
 
-/-- the fields of a handle fit the 64-bit packing (C16): only such handles can be passed to the API -/
-def HRange (h : Handle) : Prop := h.id < 2^30 ∧ h.world < 2^10
+/-- a handle of world `wid` whose id fits the 30-bit field (C16): the packed values of two such handles differ -/
+def HRange (wid : Nat) (h : Handle) : Prop := h.id < 2^30 ∧ h.world = wid
 
 def cmdOk (pool : List (Nat × List (Nat × Nat))) : Cmd → Prop
   | .create _ m sh => MaskOk m ∧ SharedIn pool sh
-  | .destroy e => HRange e
   | _ => True
 
 structure Inv (c : CW) : Prop where
@@ -162,7 +161,7 @@ structure Inv (c : CW) : Prop where
   bufEmpty : c.w.lockDepth = 0 → ∀ b ∈ c.w.buffers, b = []
   bufKnown : ∀ b ∈ c.w.buffers, ∀ cmd ∈ b, Known c cmd.entity ∧ cmdOk c.w.pool cmd
   markedKnown : ∀ h ∈ c.w.marked, Known c h ∧ h ∉ createHandles c.w.buffers
-  markedRange : ∀ h ∈ c.w.marked, HRange h
+  markedRange : ∀ h ∈ c.w.marked, HRange c.w.worldId h
   markedSorted : c.w.marked.Pairwise (fun a b => a.value < b.value)
 
 /-- range side conditions (DESIGN.md 3.2): fewer ids than the null id, no version wrapped -/
@@ -184,7 +183,7 @@ def OpWf (c : CW) : Op Handle → Prop
   | .build t e adds _ =>
     t < c.w.nthreads ∧ addsOk adds ∧
     (if c.w.isLocked then Known c e else c.w.isValid e = true ∧ ∀ p ∈ adds, c.w.hasComp e p.1 = false)
-  | .destroy t e => t < c.w.nthreads ∧ Known c e ∧ HRange e
+  | .destroy t e => t < c.w.nthreads ∧ (c.w.isLocked = true → Known c e)
   | .destroyNow t e => t < c.w.nthreads ∧ (c.w.isLocked = true → Known c e)
   | .clone _ => c.w.isLocked = false
   | .sassign e _ _ => c.w.isLocked = false ∧ c.w.isValid e = true
